@@ -83,7 +83,7 @@ partial def c10Pred (j : Json) : Except String (Pred F64) := do
     | .null => pure (.fitc (.isNull a))
     | .str s => pure (.fitc (.strEq a s))
     | .num x => pure (.fitc (.numEq a x))
-    | .bool _ => throw "boolean equality not modelled"
+    | .bool b => pure (.fitc (.boolEq a b))
   | "contains" => pure (.fitc (.contains (← getStr j "attr") (← getStr j "s")))
   | "in" => pure (.fitc (.isIn (← getStr j "attr") (← getStr j "s")))
   | "bool" => pure (.fitc (.boolAttr (← getStr j "attr")))
